@@ -1029,7 +1029,10 @@ def import_samename_scenario(rng):
         alts.append("E " + ".Sign ".join(mods[:2]) + ".Sign E")
     rng.shuffle(alts)
     root = "".join(f"import '{m}.pg' as {m};\n" for m in mods)
-    root += "S: E;\nE: " + "\n | ".join(alts + ["NUM"]) + ";\nterminals\nNUM: /\\d+/;\n"
+    # two differently named terminals that match the same text (INT preferred, so LR
+    # still scans deterministically): error reports there carry two lookahead names
+    root += ("S: E;\nE: " + "\n | ".join(alts + ["NUM", "INT"])
+             + ";\nterminals\nNUM: /\\d+/;\nINT: /\\d+/ {prefer};\n")
     files["g.pg"] = root
     inputs = []
     for _ in range(3):
@@ -1038,4 +1041,10 @@ def import_samename_scenario(rng):
         for _ in range(k):
             toks += [rng.choice(texts), rng.choice(["2", "3", "10"])]
         inputs.append(" ".join(toks))
-    return dict(family="imports-samename", files=files, inputs=inputs)
+    # error examples in lookahead mode: the doubled operator is matched by several
+    # (overlapping, same-named) terminals, so the compiled hint key holds several names
+    exs = [f"1 {t} {t} 2\n:::+\nhint for doubled {i}\n" for i, t in enumerate(texts)]
+    exs.append("1 2\n:::+\noperator missing\n")
+    pge = "\n=====\n".join(exs)
+    inputs += [f"1 {t} {t} 2" for t in texts] + ["1 2"]
+    return dict(family="imports-samename", files=files, inputs=inputs, pge=pge)
